@@ -672,6 +672,41 @@ def check_carriers(ctx, rule, types):
                where=f.span, detail={"found": d})
 
 
+EMPTY_CTORS = ("core::default::Default::default", "alloc::vec::Vec::<T>::new", "alloc::string::String::new",
+               "alloc::collections::btree::set::BTreeSet::<T>::new")
+
+
+def _structural_impl(prog, imp, adt):
+    """a hand-written `Clone` / `Default` for a struct that is literally what the derive generates: every field cloned from the same
+    field of self / every field its empty value"""
+    tr = imp.get("trait")
+    if len(adt.get("variants", [])) != 1 or tr not in ("core::clone::Clone", "core::default::Default"):
+        return False
+    fields = [fd["name"] for fd in adt["variants"][0]["fields"]]
+    name = "clone" if tr.endswith("Clone") else "default"
+    key = next((it["path"] for it in imp.get("items", []) if it["name"] == name), None)
+    f = prog.fns.get(key)
+    if f is None or not f.blocks:
+        return False
+    rt = Prov(f).return_term()
+    if rt[0] != "aggr" or rt[1] != imp["self_adt"] or sorted(n for n, _ in rt[3]) != sorted(fields):
+        return False
+    for fname, v in rt[3]:
+        if name == "clone":
+            src = ("field", ("deref", ("param", 0)), fname)
+            arg = v[2][0] if (is_call(v) and v[1].endswith("::clone") and len(v[2]) == 1) else None
+            while arg is not None and arg[0] == "ref":
+                arg = arg[1]
+            if arg != src:
+                return False
+        else:
+            ok = (is_call(v) and (v[1] in EMPTY_CTORS or v[1].endswith("core::default::Default>::default")) and not v[2]) \
+                or v == ("aggr", "core::option::Option", "None", ())
+            if not ok:
+                return False
+    return True
+
+
 def check_derived_impls(ctx, rule, traits, only_structs=False):
     """the analyses read `x.clone()` as x, `T::default()` as the all-empty T and `a == b` as structural equality - which is
     what `#[derive]` generates.  Every impl of the named std traits for a crate-local type must therefore be compiler-derived;
@@ -688,8 +723,8 @@ def check_derived_impls(ctx, rule, traits, only_structs=False):
         if only_structs and len(adt.get("variants", [])) != 1:
             continue
         n += 1
-        if not i.get("from_expansion"):
+        if not i.get("from_expansion") and not _structural_impl(prog, i, adt):
             manual.append("%s for %s (%s)" % (tr.split("::")[-1], i["self_ty"], i.get("span")))
     ctx.ob(rule, "derived:%s" % "+".join(sorted(t.split("::")[-1] for t in traits)), not manual and n > 0,
-           "all %d impls of %s for the crate's own types are compiler-derived (structural), as the analyses assume" % (
+           "all %d impls of %s for the crate's own types are compiler-derived or literally structural, as the analyses assume" % (
                n, " / ".join(sorted(t.split("::")[-1] for t in traits))), detail={"hand_written": manual})
